@@ -36,6 +36,8 @@ type Run struct {
 	Files       map[string]string `json:"files,omitempty"` // name -> content, created in a private dir; "@name" in argv is replaced by the path
 	Env         []string          `json:"env,omitempty"`
 	OutArg      string            `json:"out_arg,omitempty"`      // name of a file (in the private dir) the command writes; content returned in Result.OutFile
+	StdoutAppend string           `json:"stdout_append,omitempty"` // standard output is a regular file that already holds this text, opened for appending (`>> notes.txt`); Stdout = what the file holds afterwards
+	StdinSkip   string            `json:"stdin_skip,omitempty"`    // standard input is a regular file that starts with this text, which the caller has already read (the offset stands behind it)
 	NoStdin     bool              `json:"no_stdin,omitempty"`     // standard input is /dev/null (a character device) instead of a pipe
 	StdinFile   bool              `json:"stdin_file,omitempty"`   // standard input is a regular file holding Stdin (`crd ... < file`)
 	StdinBursts bool              `json:"stdin_bursts,omitempty"` // standard input is a pipe fed in two writes with a pause between them
@@ -91,7 +93,32 @@ func (r Run) exec1(timeout time.Duration) Result {
 		}
 	}
 	cmd := exec.Command(crdBin(), argv...)
+	ensureDir := func() {
+		if dir == "" {
+			dir = filepath.Join(workDir(), fmt.Sprintf("run-%d-%d", os.Getpid(), runSeq.Add(1)))
+			if err := os.MkdirAll(dir, 0o755); err != nil {
+				panic(err)
+			}
+		}
+	}
+	var appendFile *os.File
 	switch {
+	case r.StdinSkip != "":
+		ensureDir()
+		defer os.RemoveAll(dir)
+		p := filepath.Join(dir, ".stdin")
+		if err := os.WriteFile(p, []byte(r.StdinSkip+r.Stdin), 0o644); err != nil {
+			panic(err)
+		}
+		f, err := os.Open(p)
+		if err != nil {
+			panic(err)
+		}
+		defer f.Close()
+		if _, err := f.Seek(int64(len(r.StdinSkip)), 0); err != nil {
+			panic(err)
+		}
+		cmd.Stdin = f
 	case r.NoStdin:
 	case r.StdinFile:
 		if dir == "" {
@@ -118,6 +145,21 @@ func (r Run) exec1(timeout time.Duration) Result {
 	}
 	var out, errb bytes.Buffer
 	cmd.Stdout = &out
+	if r.StdoutAppend != "" {
+		ensureDir()
+		defer os.RemoveAll(dir)
+		p := filepath.Join(dir, ".stdout")
+		if err := os.WriteFile(p, []byte(r.StdoutAppend), 0o644); err != nil {
+			panic(err)
+		}
+		f, err := os.OpenFile(p, os.O_WRONLY|os.O_APPEND, 0o644)
+		if err != nil {
+			panic(err)
+		}
+		defer f.Close()
+		appendFile = f
+		cmd.Stdout = f
+	}
 	cmd.Stderr = &errb
 	cmd.Env = append(os.Environ(), r.Env...)
 	if dir != "" {
@@ -140,6 +182,10 @@ func (r Run) exec1(timeout time.Duration) Result {
 	}
 	res.WallMS = time.Since(start).Milliseconds()
 	res.Stdout = out.Bytes()
+	if appendFile != nil {
+		b, _ := os.ReadFile(appendFile.Name())
+		res.Stdout = b
+	}
 	res.Stderr = errb.String()
 	if len(res.Stderr) > 4000 {
 		res.Stderr = res.Stderr[:4000] + "...[cut]"
